@@ -78,7 +78,7 @@ example : reconnect 1000 8000 5 = some ⟨[1000, 2000, 4000, 8000, 8000, 8000], 
 /-- **The source still has the shape the model mirrors** (regenerated on every run; `decide` fails when the Go code
 changes): hashed concatenation order, SHA-256, the backoff statements of the retry loop, the routing branch of
 `ErrChanSwitch.run` under the mutex, `Divert`/`Restore`, the bookkeeping order of `HandleServerShutdown`
-(all keys deleted before re-subscribing, first error returned) and `connectAndAuthenticate` (map insertion before
+(all keys deleted before re-subscribing, first error returned after `keepSubscriptions`) and `connectAndAuthenticate` (map insertion before
 `authenticate`, divert before / restore deferred), the calls of `authenticate`, and `serverHandler`'s reaction. -/
 theorem C18_source_shape :
     Pool.Gen.C18.hashOrderCommitAccount = [0, 1] ∧ Pool.Gen.C18.hashOrderAuthChallenge = [0, 1] ∧
@@ -95,18 +95,25 @@ theorem C18_source_shape :
     Pool.Gen.C18.switchRestore = "s.Lock(); defer s.Unlock(); s.tempChan = nil; s.diverted = false" ∧
     Pool.Gen.C18.handleShutdownShape =
       ["c.closeStream", "c.connectServerStream", "return err", "c.checkPendingBatch", "return err",
-       "range c.subscribedAccts", "delete", "range acctKeys", "c.StartAccountSubscription", "return err",
-       "return nil"] ∧
+       "range c.subscribedAccts", "delete", "range acctKeys", "c.StartAccountSubscription",
+       "c.keepSubscriptions", "return err", "return nil"] ∧
     Pool.Gen.C18.connectAndAuthShape =
       ["c.connectServerStream", "c.errChanSwitch.Divert", "defer c.errChanSwitch.Restore()",
-       "c.subscribedAccts[acctPubKey] = sub", "sub.authenticate", "c.HandleServerShutdown"] ∧
+       "c.subscribedAccts[acctPubKey] = sub", "sub.authenticate", "if errors.Is(err, ErrServerErrored)",
+       "c.HandleServerShutdown", "if err == ErrServerErrored", "c.HandleServerShutdown",
+       "if err == ErrServerErrored", "c.HandleServerShutdown"] ∧
     Pool.Gen.C18.authenticateCalls =
       ["copy(acctPubKey[:], s.acctKey.PubKey.SerializeCompressed())", "account.CommitAccount(acctPubKey, nonce)",
        "copy(serverChallenge[:], msg.Challenge.Challenge)", "account.AuthHash(s.commitHash, serverChallenge)",
        "s.signer.SignMessage(ctx, authHash[:], s.acctKey.KeyLocator)"] ∧
     Pool.Gen.C18.handlerReaction =
       ["err := <-s.auctioneer.StreamErrChan", "if err != nil && err != auctioneer.ErrServerShutdown",
-       "s.auctioneer.HandleServerShutdown(err)"] := by decide
+       "for err != nil && err != auctioneer.ErrClientShutdown", "return",
+       "s.auctioneer.HandleServerShutdown( err, )"] := by decide
+
+/-- the source contains the three repairs: the driver's model variant (read from the regenerated shapes) is the one
+the theorems below are about -/
+theorem C18_source_is_repaired : variantOfSource = Variant.fixed := by decide
 
 /-- outside the guard the doubling can wrap: with `max ≥ 2^62` a backoff of `2^62` ns doubles to `-2^63`, which is
 "waited" as zero time – the guard of `C18_backoff_shape` is needed -/
@@ -160,157 +167,161 @@ example : (({} : Switch).run [.send 1, .divert 7, .recv 0, .lock, .restore, .sen
 /-- quiescent and healthy: either nothing was ever subscribed, or the newest stream is alive and the auctioneer has
 received on it exactly one (verified, acknowledged) subscription per account of `subscribedAccts` -/
 def Healthy (c : Client) : Prop :=
-  c.accts.Nodup ∧ c.chaos = false ∧ c.badOrder = false ∧
+  c.accts.Nodup ∧ c.chaos = false ∧
   ((c.isOpen = false ∧ c.accts = []) ∨
    (c.isOpen = true ∧ c.cur.alive = true ∧ List.Perm c.cur.subs c.accts ∧ c.cur.success = c.cur.subs))
 
-/-- named hypothesis of the partial theorem: no fault hits a handshake of the re-subscription loop (every commitment
-the auctioneer receives while the client re-subscribes is answered normally) -/
-abbrev NoFaultDuringResubscription (beh : List Beh) : Prop := AllOk beh
+theorem healthy_of_live {c : Client} (h : Live c) : Healthy c :=
+  ⟨h.nodup, h.chaos, Or.inr ⟨h.isOpen, h.alive, h.perm, h.succ⟩⟩
 
-/-- **Re-subscribed exactly once (partial).**  From any healthy state with an open stream: a transport error or a
-shutdown notice while idle, followed by any number `k` of refused reconnects, with the map iterated in any order
-`ord`, and – the extra hypothesis – no fault during the re-subscription: exactly one new stream is opened after
-`k + 1` attempts, the subscribe messages on it are exactly the previously subscribed accounts, each once, the map is
-unchanged as a set, and the state is healthy again (so the statement iterates over any sequence of such faults). -/
-theorem C18_resubscribed_once_partial (c : Client) (hH : Healthy c) (hopen : c.isOpen = true) (op : Op)
-    (hop : op = .errIdle ∨ op = .shutIdle) (k : Nat) (beh : List Beh) (hb : NoFaultDuringResubscription beh)
-    (ord : List Nat) (more : List (List Nat)) (hp : List.Perm ord c.accts) :
-    let c' := ((c.script k beh (ord :: more)).step op).1
-    Healthy c' ∧ c'.streams.length = c.streams.length + 1 ∧ c'.attempts = c.attempts + k + 1 ∧
-      List.Perm c'.cur.subs c.accts ∧ c'.cur.success = c'.cur.subs ∧ c'.cur.alive = true ∧
-      List.Perm c'.accts c.accts := by
-  obtain ⟨hnd, hch, hbo, hst⟩ := hH
+/-- The property's re-subscription clause over the model of variant `v`: from a healthy state with an open stream, a
+transport error or a shutdown notice while idle, any number `k` of refused reconnects, any map iteration order
+`pick`, and any transport errors (before the challenge, between challenge and subscribe, after the subscribe)
+hitting the handshakes of the re-subscription – and of the reconnects these cause in turn: afterwards the newest
+stream is alive and carries every previously subscribed account exactly once, acknowledged; the state is healthy
+again (so the statement iterates over any sequence of such faults). -/
+def C18_resubscribed_statement (v : Variant) : Prop :=
+  ∀ (pick : List Nat → List Nat), (∀ l, List.Perm (pick l) l) →
+  ∀ (c : Client), Healthy c → c.isOpen = true → ∀ (op : Op), (op = .errIdle ∨ op = .shutIdle) →
+  ∀ (k : Nat) (beh : List Beh), TransportOnly beh →
+    let c' := ((c.script k beh).step v pick op).1
+    Healthy c' ∧ c'.cur.alive = true ∧ List.Perm c'.cur.subs c.accts ∧ c'.cur.success = c'.cur.subs ∧
+      List.Perm c'.accts c.accts ∧ c.streams.length < c'.streams.length
+
+/-- **Re-subscribed exactly once – full strength, for the repaired code.**  No hypothesis about where the transport
+errors fall: each one that hits a handshake is absorbed by an inline reconnect that re-subscribes the whole map. -/
+theorem C18_resubscribed_once : C18_resubscribed_statement Variant.fixed := by
+  intro pick hpick c hH hopen op hop k beh ht c'
+  obtain ⟨hnd, hch, hst⟩ := hH
   rcases hst with ⟨hcl, _⟩ | ⟨_, halive, _, _⟩
   · simp [hopen] at hcl
-  intro c'
-  -- the state `HandleServerShutdown` starts from, for both kinds of fault
-  have key : ∀ c1 : Client, c1.accts = c.accts → c1.orders = ord :: more → c1.beh = beh → c1.refuse = k →
-      c1.attempts = c.attempts → c1.chaos = c.chaos → c1.badOrder = c.badOrder →
-      c1.streams.length = c.streams.length →
-      ∃ c2, c1.handleShutdown = (c2, .ok) ∧ c2.accts = ord ∧
-        c2.cur = { subs := ord, success := ord, alive := true } ∧ c2.isOpen = true ∧
-        c2.streams.length = c.streams.length + 1 ∧ c2.attempts = c.attempts + k + 1 ∧
-        c2.chaos = false ∧ c2.badOrder = false := by
-    intro c1 h1 h2 h3 h4 h5 h6 h7 h8
-    obtain ⟨c2, h, ha, hc, ho, hl, hat, _, _, hch', hbo', _, _⟩ :=
-      handleShutdown_clean c1 ord more h2 (by rw [h1]; exact hp) (by rw [h1]; exact hnd) (by rw [h3]; exact hb)
-    exact ⟨c2, h, ha, hc, ho, by omega, by omega, by simp [hch', h6, hch], by simp [hbo', h7, hbo]⟩
-  have fin : ∀ c2 : Client, c2.accts = ord → c2.cur = { subs := ord, success := ord, alive := true } →
-      c2.isOpen = true → c2.streams.length = c.streams.length + 1 → c2.attempts = c.attempts + k + 1 →
-      c2.chaos = false → c2.badOrder = false →
-      Healthy c2 ∧ c2.streams.length = c.streams.length + 1 ∧ c2.attempts = c.attempts + k + 1 ∧
-      List.Perm c2.cur.subs c.accts ∧ c2.cur.success = c2.cur.subs ∧ c2.cur.alive = true ∧
-      List.Perm c2.accts c.accts := by
-    intro c2 ha hc ho hl hat hch2 hbo2
-    have hndo : ord.Nodup := hp.nodup_iff.mpr hnd
-    refine ⟨⟨by rw [ha]; exact hndo, hch2, hbo2, Or.inr ⟨ho, by simp [hc], by simp [hc, ha], by simp [hc]⟩⟩,
-      hl, hat, by simpa [hc] using hp, by simp [hc], by simp [hc], by rw [ha]; exact hp⟩
-  have hopen' : (c.script k beh (ord :: more)).isOpen = true := hopen
-  have halive' : (c.script k beh (ord :: more)).cur.alive = true := halive
+  have hP := PHs_all pick hpick beh.length
+  have hopen' : (c.script k beh).isOpen = true := hopen
+  have halive' : (c.script k beh).cur.alive = true := halive
+  have fin : ∀ c2 : Client, Live c2 → List.Perm c2.accts c.accts → c.streams.length < c2.streams.length →
+      Healthy c2 ∧ c2.cur.alive = true ∧ List.Perm c2.cur.subs c.accts ∧ c2.cur.success = c2.cur.subs ∧
+      List.Perm c2.accts c.accts ∧ c.streams.length < c2.streams.length :=
+    fun c2 hl hp hs => ⟨healthy_of_live hl, hl.alive, hl.perm.trans hp, hl.succ, hp, hs⟩
   rcases hop with rfl | rfl
   · -- transport error while idle: reader → switch (not diverted) → main handler → HandleServerShutdown(err)
-    obtain ⟨hf1, hf2, hf3, hf4, hf5, hf6, hf7, hf8, _⟩ :=
-      setCur_fields (c.script k beh (ord :: more)) (fun s => { s with alive := false })
-    obtain ⟨c2, h, ha, hc, ho, hl, hat, hch2, hbo2⟩ :=
-      key { (c.script k beh (ord :: more)).failStream with
-            mainErrs := (c.script k beh (ord :: more)).failStream.mainErrs ++ [ErrClass.serverErrored] }
-        hf1 hf2 hf3 hf4 hf5 hf6 hf7 hf8
-    have : c' = { c2 with handlerRes := c2.handlerRes ++ [ErrClass.none_] } := by
-      simp only [c', Client.step, hopen', halive', Bool.and_self, if_true, Client.mainHandler, h]
-    rw [this]
-    exact fin _ ha hc ho hl hat hch2 hbo2
+    obtain ⟨f1, f2, _, _, f5, f6, _⟩ := setCur_fields (c.script k beh) (fun s => { s with alive := false })
+    let c1 : Client := { (c.script k beh).failStream with
+      mainErrs := (c.script k beh).failStream.mainErrs ++ [ErrClass.serverErrored] }
+    obtain ⟨c2, h, hl, hp, _, _, hs⟩ := hss_of_P pick hpick beh.length hP c1
+      (by show (c.script k beh).failStream.accts.Nodup; rw [Client.failStream, f1]; exact hnd)
+      (by show (c.script k beh).failStream.chaos = false; rw [Client.failStream, f5]; exact hch)
+      (by show TransportOnly (c.script k beh).failStream.beh; rw [Client.failStream, f2]; exact ht)
+      (by show (c.script k beh).failStream.beh.length ≤ _; rw [Client.failStream, f2]; exact le_refl _)
+    have e : c' = { c2 with handlerRes := c2.handlerRes ++ [ErrClass.none_] } := by
+      have hb : (c.script k beh).beh.length = beh.length := rfl
+      simp only [c', Client.step, hopen', halive', Bool.and_self, if_true, Client.mainHandler, hb]
+      simp only [hsF] at h
+      exact handlerLoop_ok _ _ _ c1 c2 h
+    have hl' : Live { c2 with handlerRes := c2.handlerRes ++ [ErrClass.none_] } :=
+      ⟨hl.isOpen, hl.alive, hl.perm, hl.succ, hl.nodup, hl.chaos⟩
+    rw [e]
+    have hp1 : List.Perm c2.accts c.accts := by
+      refine hp.trans ?_
+      show List.Perm (c.script k beh).failStream.accts c.accts
+      rw [Client.failStream, f1]; exact List.Perm.refl _
+    have hs1 : c.streams.length < c2.streams.length := by
+      have : c1.streams.length = c.streams.length := by
+        show (c.script k beh).failStream.streams.length = _
+        rw [Client.failStream, f6]; rfl
+      omega
+    exact fin _ hl' hp1 hs1
   · -- shutdown notice while idle: the reader goroutine runs HandleServerShutdown(nil) itself
-    obtain ⟨c2, h, ha, hc, ho, hl, hat, hch2, hbo2⟩ :=
-      key (c.script k beh (ord :: more)) rfl rfl rfl rfl rfl rfl rfl rfl
-    have : c' = c2 := by
-      simp only [c', Client.step, hopen', halive', Bool.and_self, if_true, Client.readerShutdown, h]
-    rw [this]
-    exact fin _ ha hc ho hl hat hch2 hbo2
+    obtain ⟨c2, h, hl, hp, _, _, hs⟩ := hss_of_P pick hpick beh.length hP (c.script k beh) hnd hch ht (le_refl _)
+    have e : c' = c2 := by
+      have hb : (c.script k beh).beh.length = beh.length := rfl
+      simp only [c', Client.step, hopen', halive', Bool.and_self, if_true, Client.readerShutdown, hb]
+      simp only [hsF] at h
+      rw [h]
+    rw [e]
+    exact fin _ hl hp hs
 
 /-- a healthy three-account state used as witness below -/
 def witness3 : Client :=
   { accts := [0, 1, 2], isOpen := true, streams := [{ subs := [0, 1, 2], success := [0, 1, 2] }], attempts := 1 }
 
 theorem witness3_healthy : Healthy witness3 :=
-  ⟨by decide, rfl, rfl, Or.inr ⟨rfl, rfl, List.Perm.refl _, rfl⟩⟩
+  ⟨by decide, rfl, Or.inr ⟨rfl, rfl, List.Perm.refl _, rfl⟩⟩
 
--- non-vacuity of `C18_resubscribed_once_partial`: shutdown notice, 3 refused reconnects, map iterated as 2,0,1
-example : (((witness3.script 3 [] [[2, 0, 1]]).step .shutIdle).1.cur.subs = [2, 0, 1]) ∧
-    ((witness3.script 3 [] [[2, 0, 1]]).step .shutIdle).1.attempts = 5 := by decide
+-- non-vacuity: shutdown notice, 3 refused reconnects, the 2nd re-subscription fails before its challenge, the first
+-- handshake of the nested reconnect fails between challenge and subscribe; map iterated in reverse
+example : TransportOnly [.ok, .errBC, .errMid] ∧
+    (((witness3.script 3 [.ok, .errBC, .errMid]).step Variant.fixed List.reverse .shutIdle).1.cur.subs = [1, 2, 0]) ∧
+    ((witness3.script 3 [.ok, .errBC, .errMid]).step Variant.fixed List.reverse .shutIdle).1.attempts = 7 ∧
+    ((witness3.script 3 [.ok, .errBC, .errMid]).step Variant.fixed List.reverse .shutIdle).1.streams.length = 4 := by
+  refine ⟨by intro b hb; simp at hb; rcases hb with rfl | rfl | rfl <;> simp, by decide +kernel, by decide +kernel, by decide +kernel⟩
 
-/-- **Subscribing keeps the state healthy.**  A (first or further) `StartAccountSubscription` whose handshake is
-answered normally returns nil, leaves a healthy state and adds the account to the map at most once. -/
-theorem C18_subscribe_healthy (c : Client) (hH : Healthy c) (a k : Nat) (beh : List Beh)
-    (hb : NoFaultDuringResubscription beh) (orders : List (List Nat)) :
-    let r := (c.script k beh orders).step (.sub a)
-    r.2 = .ok ∧ Healthy r.1 ∧ r.1.accts = addAcct c.accts a := by
-  obtain ⟨hnd, hch, hbo, hst⟩ := hH
+/-- **Subscribing is resilient too (repaired code).**  A first or further `StartAccountSubscription`, with any
+transport errors hitting its own handshake or the re-subscriptions of the reconnects they cause, returns nil, leaves
+a healthy state and adds the account to the map exactly once. -/
+theorem C18_subscribe_resilient (pick : List Nat → List Nat) (hpick : ∀ l, List.Perm (pick l) l)
+    (c : Client) (hH : Healthy c) (a k : Nat) (beh : List Beh) (ht : TransportOnly beh) :
+    let r := (c.script k beh).step Variant.fixed pick (.sub a)
+    r.2 = .ok ∧ Healthy r.1 ∧ List.Perm r.1.accts (addAcct c.accts a) := by
+  obtain ⟨hnd, hch, hst⟩ := hH
   intro r
+  have hP := PHs_all pick hpick beh.length
+  have hb : (c.script k beh).beh.length = beh.length := rfl
   by_cases ha : a ∈ c.accts
-  · have : r = (c.script k beh orders, .ok) := by
-      simp only [r, Client.step, Client.connectAndAuth, Client.script, ha, if_true]
+  · have : r = (c.script k beh, .ok) := by
+      have ha' : a ∈ (c.script k beh).accts := ha
+      simp only [r, Client.step, hb]
+      cases hbl : beh.length <;> simp [hsLevel, Client.connectAndAuth, ha']
     rw [this]
-    exact ⟨rfl, ⟨hnd, hch, hbo, hst⟩, by simp [Client.script, addAcct, ha]⟩
-  · have hh : beh.head?.getD Beh.ok = Beh.ok := by
-      have := AllOk.headD hb; simpa [List.headD_eq_head?_getD] using this
+    exact ⟨rfl, ⟨hnd, hch, hst⟩, by simp [Client.script, addAcct, ha]⟩
+  · -- the live state the handshake starts from (after the first connect, if there is no stream yet)
+    have key : ∀ c0 : Client, Live c0 → c0.accts = c.accts → c0.beh = beh →
+        hsLevel Variant.fixed pick beh.length (c.script k beh) a = hsLevel Variant.fixed pick beh.length c0 a →
+        r.2 = .ok ∧ Healthy r.1 ∧ List.Perm r.1.accts (addAcct c.accts a) := by
+      intro c0 hl h1 h2 heq
+      obtain ⟨c', h, p⟩ := hP c0 a hl (by rw [h1]; exact ha) (by rw [h2]; exact ht) (by rw [h2])
+      have : r = (c', .ok) := by
+        simp only [r, Client.step, hb, heq]
+        simp only [hsF] at h
+        rw [h]
+      rw [this]
+      refine ⟨rfl, healthy_of_live p.live, ?_⟩
+      have := p.perm
+      rw [h1] at this
+      simpa [addAcct, ha] using this
     rcases hst with ⟨hcl, hemp⟩ | ⟨hop, halive, hperm, hsucc⟩
-    · -- first connect: a fresh stream is opened, then the handshake runs on it
-      have : r.2 = .ok ∧ r.1.accts = [a] ∧ r.1.cur = { subs := [a], success := [a], alive := true } ∧
-          r.1.isOpen = true ∧ r.1.chaos = false ∧ r.1.badOrder = false := by
-        simp [r, Client.step, Client.connectAndAuth, Client.script, hcl, hemp, Client.connectStream, addAcct,
-          Client.cur, Client.setCur, hh, hch, hbo]
-      obtain ⟨h1, h2, h3, h4, h5, h6⟩ := this
-      refine ⟨h1, ⟨by simp [h2], h5, h6, Or.inr ⟨h4, by simp [h3], by simp [h3, h2], by simp [h3]⟩⟩, ?_⟩
-      simp [h2, hemp, addAcct]
-    · obtain ⟨s, ss, hs⟩ : ∃ s ss, c.streams = s :: ss := by
-        cases hstr : c.streams with
-        | nil => simp [Client.cur, hstr] at halive
-        | cons s ss => exact ⟨s, ss, rfl⟩
-      have hal : s.alive = true := by simpa [Client.cur, hs] using halive
-      have : r.2 = .ok ∧ r.1.accts = c.accts ++ [a] ∧
-          r.1.cur = { subs := s.subs ++ [a], success := s.success ++ [a], alive := true } ∧
-          r.1.isOpen = true ∧ r.1.chaos = false ∧ r.1.badOrder = false := by
-        simp [r, Client.step, Client.connectAndAuth, Client.script, ha, hop, addAcct, Client.cur, Client.setCur, hs,
-          hal, hh, hch, hbo]
-      obtain ⟨h1, h2, h3, h4, h5, h6⟩ := this
-      have hp' : List.Perm s.subs c.accts := by simpa [Client.cur, hs] using hperm
-      have hs' : s.success = s.subs := by simpa [Client.cur, hs] using hsucc
-      refine ⟨h1, ⟨?_, h5, h6, Or.inr ⟨h4, by simp [h3], ?_, by simp [h3, hs']⟩⟩, by simp [h2, addAcct, ha]⟩
-      · rw [h2]; exact List.nodup_append.mpr ⟨hnd, by simp, by intro x hx y hy; simp at hy; subst hy; intro e; subst e; exact ha hx⟩
-      · rw [h3, h2]; exact List.Perm.append_right _ hp'
+    · have hcl' : (c.script k beh).isOpen = false := hcl
+      have ha' : a ∉ (c.script k beh).accts := ha
+      refine key (c.script k beh).connectStream ?_ rfl rfl ?_
+      · refine ⟨rfl, rfl, ?_, rfl, ?_, hch⟩
+        · show List.Perm [] c.accts; rw [hemp]
+        · show c.accts.Nodup; exact hnd
+      · cases beh.length <;>
+          simp [hsLevel, Client.connectAndAuth, ha', hcl', Client.connectStream]
+    · exact key (c.script k beh) ⟨hop, halive, hperm, hsucc, hnd, hch⟩ rfl rfl rfl
 
-/-- The property's re-subscription clause **at full strength** over the model: after a transport error or a shutdown
-notice while idle, any run of refused reconnects, and *any* faults of the stated fault model hitting the handshakes
-of the re-subscription (here: transport errors before / after the challenge), the newest stream is alive and carries
-every previously subscribed account exactly once. -/
-def C18_resubscribed_full_statement : Prop :=
-  ∀ (c : Client), Healthy c → c.isOpen = true → ∀ (op : Op), (op = .errIdle ∨ op = .shutIdle) →
-  ∀ (k : Nat) (beh : List Beh) (orders : List (List Nat)),
-    (∀ b ∈ beh, b = Beh.ok ∨ b = Beh.errBC ∨ b = Beh.errAC) →
-    ((c.script k beh orders).step op).1.badOrder = false →
-    ((c.script k beh orders).step op).1.cur.alive = true ∧
-      List.Perm ((c.script k beh orders).step op).1.cur.subs c.accts
-
-/-- **The full statement is false for the code as it is** (finding `resubscribe-abort-drops-accounts`): three
-accounts, shutdown notice, the second re-subscription is hit by a transport error before the challenge – the loop
-returns, the error reaches the main handler, which reconnects and re-subscribes only the two accounts still in the
-map; account 2 is never subscribed again.  The witness is replayed on the real client by corpus/C18/defects.json. -/
-theorem C18_resubscribed_full_false : ¬ C18_resubscribed_full_statement := by
+/-- **The clause is false for the code before the repairs** (finding `resubscribe-abort-drops-accounts`, now fixed):
+three accounts, shutdown notice, the second re-subscription is hit by a transport error before the challenge – the
+loop returns, the error reaches the main handler, which reconnects and re-subscribes only the two accounts still in
+the map; account 2 is never subscribed again.  Replayed on the real client by corpus/C18/defects.json. -/
+theorem C18_resubscribed_orig_false : ¬ C18_resubscribed_statement Variant.orig := by
   intro h
-  have := h witness3 witness3_healthy rfl .shutIdle (Or.inr rfl) 1 [.ok, .errBC] [[0, 1, 2], [0, 1]]
-    (by decide) (by decide)
-  have e : ((witness3.script 1 [.ok, .errBC] [[0, 1, 2], [0, 1]]).step .shutIdle).1.cur.subs = [0, 1] := by decide
-  rw [e] at this
-  exact absurd this.2.length_eq (by decide)
+  have := h id (fun _ => List.Perm.refl _) witness3 witness3_healthy rfl .shutIdle (Or.inr rfl) 1 [.ok, .errBC]
+    (by intro b hb; simp at hb; rcases hb with rfl | rfl <;> simp)
+  have e : ((witness3.script 1 [.ok, .errBC]).step Variant.orig id .shutIdle).1.cur.subs = [0, 1] := by decide +kernel
+  have h3 : List.Perm ((witness3.script 1 [.ok, .errBC]).step Variant.orig id .shutIdle).1.cur.subs witness3.accts :=
+    this.2.2.1
+  rw [e] at h3
+  exact absurd h3.length_eq (by decide)
 
-/-- the other two modelled findings, as computations of the model (replayed by corpus/C18/defects.json cases 2, 3):
-a transport error consumed by a direct handshake, or a failed re-subscription on the main handler's path, leaves
-`serverStream` set but dead – no further reconnect happens -/
-theorem C18_dead_stream_witnesses :
-    (let c := ((witness3.script 0 [.errBC] []).step (.sub 3)).1
-     c.isOpen = true ∧ c.cur.alive = false ∧ c.streams.length = 1) ∧
-    (let c := ((witness3.script 2 [.errAC] [[0, 1, 2]]).step .errIdle).1
-     c.isOpen = true ∧ c.cur.alive = false ∧ c.handlerRes = [.other] ∧ c.accts = [0]) := by decide
+/-- each of the three repairs is needed (model computations; `reject` = the auctioneer answers one subscription with
+an error, which makes `HandleServerShutdown` fail without a transport error):
+without the inline reconnect a transport error in a direct handshake leaves a dead stream; without keeping the
+accounts a failed re-subscription loses account 2 for good; without the handler retry the client stays with one
+account subscribed. -/
+theorem C18_each_repair_needed :
+    ((witness3.script 0 [.errBC]).step ⟨true, false, true⟩ id (.sub 3)).1.cur.alive = false ∧
+    ((witness3.script 0 [.ok, .reject]).step ⟨false, true, true⟩ id .errIdle).1.accts = [0, 1] ∧
+    ((witness3.script 0 [.ok, .reject]).step ⟨true, true, false⟩ id .errIdle).1.cur.success = [0] ∧
+    ((witness3.script 0 [.ok, .reject]).step Variant.fixed id .errIdle).1.cur.success = [0, 1, 2] := by decide +kernel
 
 end Pool.C18
